@@ -224,6 +224,20 @@ def _c14_bases(full):
     b.con("TaskStartAt", task=a, value=0)
     b.obj("ObjectiveMinimizeMakespan")
     bases.append(b.done())
+    # distance between the tasks of a resource restricted to a time interval (tasks may run in any order)
+    b = PB(6, tag="c14-distance-intervals")
+    ts = [b.task(n, "F", dur=1) for n in ("A", "B", "C")]
+    w = b.worker("W")
+    for t in ts:
+        b.require(t, worker=w)
+    b.con("ResourceTasksDistance", res=res_worker(w), distance=1, mode="exact", has_intervals=True, intervals=[[2, 6]])
+    b.con("TaskStartAt", task=ts[1], value=0)
+    bases.append(b.done())
+    # a variable-duration task declared first: the enumeration of all schedules must not depend on the order
+    b = PB(3, tag="c14-enumeration")
+    a = b.task("A", "V", min=1, max=2)
+    c = b.task("B", "F", dur=1)
+    bases.append(b.done())
     if full:
         # optional tasks on a non-delay worker, unordered group
         b = PB(4, tag="c14-nondelay")
@@ -288,8 +302,38 @@ def run_C14(tier, seed, replay=None, procs=16):
         i = v["problem"]["id"] - 1
         v["detail"]["twin"] = meta[i] | {"maps": None}
         v["detail"]["base"] = bases[meta[i]["base"]]
+    # the enumeration of all schedules (solve, then find_another_solution until it fails) visits every distinct
+    # timing exactly once, whatever the names and the declaration order
+    import scenarios as SC
+    import solver_engine as SE
+    cases = []
+    for t in twins:
+        if t["objs"] or "cumulative_lookalike" in t["tag"] or "busy_collision" in t["tag"]:
+            continue
+        T = len({SC.timing_key(v) for v in res["V"][t["id"]].values()})
+        if 0 < T <= 24:
+            cases.append(dict(problem=t, solver_kw={}, mode="incremental", priority="pareto", tracked=[("start", 1)],
+                              sequences=[[("solve",)] + [("another",)] * (T + 2)]))
+    res_e = SE.run_cases(cases, res["V"], procs=procs) if cases else None
+    if res_e:
+        ve = SE.violations(res_e, "C14", accept_props={"C12", "C13"})
+        for c, o in zip(res_e["cases"], res_e["outs"]):
+            if not o["error"] and o["runs"]:
+                rets = [e for e in o["runs"][0]["events"] if e["e"] == "ret"]
+                if rets and rets[-1]["w"] != 0:
+                    ve.append({"kind": "protocol", "summary": "enumeration does not terminate after every distinct timing was visited",
+                               "clauses": ["C12_exhaustion"], "problem": c["problem"], "tag": c["problem"]["tag"],
+                               "detail": {"calls": o["runs"][0]["calls"], "events": o["runs"][0]["events"]}})
+        for v in ve:
+            v.setdefault("detail", {})["base"] = None
+        viol += ve
     cov = props.coverage_of(res, {"twins": len(twins), "base_problems": len(bases), "naming_schemes": list(VR.SCHEMES),
-                                  "builder_order_states": order_states})
+                                  "builder_order_states": order_states,
+                                  "enumerations_to_exhaustion": 0 if not res_e else res_e["stats"]["n_solver_traces"]})
+    if res_e:
+        cov["states"] += res_e["stats"]["solver_trace"]["distinct"]
+        cov["transitions"] += res_e["stats"]["solver_trace"]["generated"]
+        cov["traces_validated_against_impl"] += res_e["stats"]["n_solver_traces"] + res_e["stats"]["n_solution_traces"]
     cov["states"] += order_states
     return {"violations": viol, "coverage": cov, "assumptions": ASSUME14,
             "summary": f"{len(bases)} base problems, {len(twins)} renamed / re-ordered twins (fresh process, with and without earlier problems)"}
